@@ -186,8 +186,12 @@ def g10_target_visible(ctx, g, prefix):
         ctx.check(g.ty("target_arg") != "silent", prefix, "G10|target-visible",
                   "G10: target_arg is a visible pair, so the structured-new anchor can be placed after it", W)
     ta = g.seq_of("target_arg")
-    ctx.check(bool(ta) and ta[0]["k"] == "str" and ta[0]["v"] == "target:" and ta[-1]["k"] == "str" and ta[-1]["v"] == ",", prefix,
-              "G10|target-shape", "G10: target_arg = `target:` literal `,`", W)
+    mid_ok = False
+    if len(ta) == 3 and ta[1]["k"] == "ident" and ta[1]["v"] in g.rules:
+        lit = g.seq_of(ta[1]["v"])
+        mid_ok = bool(lit) and lit[0] == {"k": "str", "v": '"'} and not g.nullable(g.expr(ta[1]["v"]))
+    ctx.check(len(ta) == 3 and ta[0] == {"k": "str", "v": "target:"} and ta[2] == {"k": "str", "v": ","} and mid_ok, prefix,
+              "G10|target-shape", "G10: target_arg = `target:` <string literal> `,` and nothing else (a target the grammar cannot delimit exactly must not be matched at all)", W)
 
 
 def g11_no_recursion(ctx, g, prefix):
